@@ -12,7 +12,7 @@ import re
 
 from vlib import core
 
-COQ_TARGETS = ["Props/C19.vo"]
+COQ_TARGETS = ["Props/C19.vo", "Model/OMap.vo"]
 PROPS = "Props/C19.v"
 TRUSTED = [
     "Go hash map `records` modelled as a partial function (observable only through lookup/insert/delete)",
